@@ -205,7 +205,7 @@ def validate_gate(tier):
             rc, text, tail = strace_child(job, tmp, 'op', [])
             if rc != 0: out['errors'].append('gate validation: strace run failed: ' + tail); continue
             real, _ = RF.norm_log(cfg, [c for c in strace_calls(cfg, text, tmp) if not c[1].startswith('job_') and not c[1].startswith('trace_')])
-            dry = RF.one_crash(cfg, prior, op, None, False)
+            dry = RF.one_crash(cfg, prior, op, None, False, base=os.path.dirname(tmp))     # same file system: same directory-listing order
             if 'error' in dry: out['errors'].append(dry['error']); continue
             gated, _ = RF.norm_log(cfg, dry['log'])
             if real != gated:
